@@ -2,6 +2,7 @@ import AiutiVerif.Core.Wire
 import AiutiVerif.Split.Drive
 import AiutiVerif.Parse.Drive
 import AiutiVerif.Gather.Drive
+import AiutiVerif.Batcher.Drive
 /-!
 Model driver: reads one case per line on stdin (`<component> key=value …`), prints the
 model's answer on one line.  Imports `Model`/`Drive` files only (never a proof file).
@@ -16,6 +17,7 @@ def answer (line : String) : String :=
     if comp == "split" then Split.drive fs
     else if comp == "parse" then Parse.drive fs
     else if comp == "gather" then Gather.drive fs
+    else if comp == "bat" then Batcher.drive fs
     else if comp == "ping" then "pong"
     else "bad-component"
   | [] => "bad-component"
